@@ -905,9 +905,9 @@ impl Scenario for ArtefactMedium {
         ScenarioInfo {
             property: "C09",
             name: "artefact-medium",
-            rule: "one case = one valid artefact produced by the real encoder for one of 59 decoder kinds, 0-3 medium faults (truncate at an offset, bit flip, byte set, length-field inflation with 39 compact-size / PUSHDATA / CBOR-head patterns, JSON value substitution, text token substitution/insertion at located length offsets or seeded offsets, junk extension/prepend, splice, duplication, emptying, random replacement, conditional nesting), optional misdelivery to another decoder, then the real decode call under an allocator budget of 1024*len+8MiB in a worker whose death is attributed by breadcrumb; non-trivial = at least one fault or misdelivery fired; distinct = distinct (stored kind, consuming decoder, fault kinds and parameters classes, outcome) fingerprint",
+            rule: "one case = one valid artefact produced by the real encoder for one of 67 decoder kinds (or a hand-made one: DER whose lengths end at / before / past the buffer end, Base58Check with a correct checksum over a payload of the wrong size, extended keys with unusable key material), 0-3 medium faults (truncate at an offset, bit flip, byte set, length-field inflation with 39 compact-size / PUSHDATA / CBOR-head patterns, a length byte set to reach exactly to the end, last byte set to a tag/flag value, CBOR array nesting, JSON value substitution, text token substitution/insertion at located length offsets or seeded offsets, junk extension/prepend, splice, duplication, emptying, random replacement, conditional nesting), optional misdelivery to another decoder, then the real decode call under an allocator budget of 1024*len+8MiB in a worker whose death is attributed by breadcrumb; non-trivial = at least one fault or misdelivery fired; distinct = distinct (stored kind, consuming decoder, fault kinds and parameters classes, outcome) fingerprint",
             abstract_state: "(consuming decoder, fault-kind set, outcome ok/err)",
-            real: &["59 public decoding entry points of bsv (Transaction/TxIn/TxOut wire+hex+CBOR+JSON, Script bytes/hex/asm/chunks, ScriptTemplate, PrivateKey WIF/hex/bytes, PublicKey, ExtendedPrivateKey/ExtendedPublicKey strings, paths, seeds, P2PKHAddress, Signature DER/compact, SighashSignature, ECIESCiphertext+decrypt, AES key/iv/ciphertext, digest-taking ECDSA entry points, serde JSON of TxIn/TxOut/Script/PublicKey/P2PKHAddress, BSM verify)", "the real encoders as producers", "the process heap through a counting allocator that refuses over-budget requests", "process death (SIGABRT/SIGSEGV/SIGALRM) observed by the parent"],
+            real: &["67 public decoding entry points of bsv (Transaction/TxIn/TxOut wire+hex+CBOR+JSON, Script bytes/hex/asm/chunks, ScriptTemplate, PrivateKey WIF/hex/bytes, PublicKey, ExtendedPrivateKey/ExtendedPublicKey strings, paths, seeds, P2PKHAddress, Signature DER/compact, SighashSignature, ECIESCiphertext+decrypt, AES key/iv/ciphertext, digest-taking ECDSA entry points, serde JSON of TxIn/TxOut/Script/PublicKey/P2PKHAddress/Hash/KDF/Interpreter/State/ScriptBit/OpCodes/SigHash/ChainParams, BSM verify, from_mnemonic, template matching, from_coinbase_bytes)", "the real encoders as producers", "the process heap through a counting allocator that refuses over-budget requests", "process death (SIGABRT/SIGSEGV/SIGALRM) observed by the parent"],
             stub: &["the medium (byte-level fault plan)"],
             assumptions: &["alpha=1024, beta=8MiB: alpha calibrated as 4x the largest fault-free peak/len ratio observed; beta leaves room for constant-size scratch buffers (wire decode of dense one-byte-opcode scripts ~185x); the fault-free ratio histogram is written to evidence on every run", "text decoders receive String::from_utf8_lossy of the damaged bytes (Rust strings are valid UTF-8 by construction)", "overflow-checks are on, as in the repository's own test profile"],
             required_probes: &["fault:truncate", "fault:inflate", "fault:flip", "fault:json_value", "fault:token", "misdelivered", "decode_ok", "decode_err", "fault_free_decode"],
